@@ -28,13 +28,25 @@ type Scenario struct {
 	Sites       []string     `json:"sites,omitempty"` // enabled yield sites (exact names or "prefix.*")
 	Schedule    []int        `json:"schedule,omitempty"`
 
+	// statement-level preemption (needs the binary built against the instrumented copy of rux, see instr/)
+	Pre     bool     `json:"pre,omitempty"`
+	PreSeed uint64   `json:"preSeed,omitempty"` // random-walk scheduling: at every step, with probability 1/preRate, a task drawn from this stream runs next
+	PreRate int      `json:"preRate,omitempty"`
+	Points  []PPoint `json:"points,omitempty"` // explicit form: at step At, task To runs next (what the shrinker works on)
+
 	SharedMW []string `json:"sharedMW,omitempty"` // a middleware list the application keeps in one slice (with spare capacity) and passes, unmodified, to several registrations
-	Inner    bool `json:"inner,omitempty"` // build a second router that handlers can mount ("mount" action)
+	Inner    bool     `json:"inner,omitempty"`    // build a second router that handlers can mount ("mount" action)
 
 	// C14 component level
 	CacheCap int `json:"cacheCap,omitempty"`
 
 	Expect *Expect `json:"expect,omitempty"` // filled in replay files
+}
+
+// PPoint is one preemption point of an explicit schedule.
+type PPoint struct {
+	At int `json:"at"`
+	To int `json:"to"`
 }
 
 type Expect struct {
@@ -53,8 +65,8 @@ type Options struct {
 	EncodedPath bool   `json:"encodedPath,omitempty"` // UseEncodedPath: match on URL.EscapedPath()
 	Wrapped     bool   `json:"wrapped,omitempty"`     // serve through Router.WrapHTTPHandlers(pass-through pre-handlers)
 	Intercept   string `json:"intercept,omitempty"`   // InterceptAll(path): every request is resolved as a request for this path
-	OnPanic     string `json:"onPanic,omitempty"` // handler id
-	OnError     string `json:"onError,omitempty"` // handler id
+	OnPanic     string `json:"onPanic,omitempty"`     // handler id
+	OnError     string `json:"onError,omitempty"`     // handler id
 }
 
 // RegOp is one step of the single-threaded registration program.
@@ -105,7 +117,7 @@ type Req struct {
 	Expired bool                `json:"expired,omitempty"` // the request's context carries a deadline that has long passed
 	HTTP10  bool                `json:"http10,omitempty"`  // an HTTP/1.0 request
 	Served  bool                `json:"served,omitempty"`  // the request context carries http.ServerContextKey / LocalAddrContextKey, as under a real server // the client has gone: the request's context is already cancelled when it arrives
-	Over    map[string][]Action `json:"over,omitempty"` // per-request script overrides
+	Over    map[string][]Action `json:"over,omitempty"`    // per-request script overrides
 }
 
 // WFault makes the k-th (0-based) underlying Write of the request accept only
